@@ -132,18 +132,24 @@ def translation_audit(pid, extra, failures, results):
     """extra = {"module": ..., "theorems": [...]}.  One obligation for the translation itself (every listed source
     function is inside the supported subset) and one per gen_* theorem (generated function = hand-written model)."""
     import fcntl, importlib
-    gen = importlib.import_module(extra.get("generator", "py2lean"))
+    # "generator": name of the translator module (default py2lean), a list of names (all are run), or None for a
+    # companion module shared between properties that is not generated code (only built and audited)
+    gname = extra.get("generator", "py2lean")
+    gnames = [] if gname is None else ([gname] if isinstance(gname, str) else list(gname))
     os.makedirs(os.path.join(LEAN, ".audit"), exist_ok=True)
-    obligations, discharged = 1 + len(extra["theorems"]), 0
-    with open(os.path.join(LEAN, ".audit", "gen_%s.lock" % extra.get("generator", "py2lean")), "w") as lock:
+    obligations, discharged = (1 if gnames else 0) + len(extra["theorems"]), 0
+    with open(os.path.join(LEAN, ".audit", "gen_%s.lock" % ("-".join(gnames) or "none")), "w") as lock:
         fcntl.flock(lock, fcntl.LOCK_EX)          # C06/C07/C08 run in parallel and share the generated file
-        try:
-            changed, errors = gen.regenerate()
-        except Exception as e:
-            changed, errors = False, {extra.get("generator", "py2lean"): "crashed: %r" % e}
+        errors = {}
+        for g in gnames:
+            try:
+                changed, errs = importlib.import_module(g).regenerate()
+                errors.update(errs)
+            except Exception as e:
+                errors[g] = "crashed: %r" % e
         for fn, e in errors.items():
             failures.append("translation of %s: %s" % (fn, e))
-        if not errors:
+        if gnames and not errors:
             discharged += 1
         p = lake(["build", extra["module"]])
     mod = extra["module"]
